@@ -129,8 +129,41 @@ class RowsOp(Op):
         return cases
 
 
+class EndToEndOp(Op):
+    """rows -> parsed rows -> element tree -> primary instance (Proofs/Convert.v) against the primary instance of real convert()"""
+    name = "E2E.instance"
+    imports = ["PX.Spec.Nest", "PX.Model.Rows", "PX.Model.Tree", "PX.Spec.Shape", "PX.Proofs.Convert"]
+    fn = ("fun rows => match parse_rows rows with POk ts => (fix show (s : sh) : list N := match s with Sh t a k => "
+          "t ++ (match a with [] => [] | _ => [42%N] end) ++ [40%N] ++ flat_map (fun c => show c ++ [44%N]) k ++ [41%N] end) "
+          "(ishape (inst false (survey_tree [100;97;116;97]%N ts))) | PErr _ => [33%N] end")
+    in_ty = "list row"
+    n_quick, n_thorough = 200, 2000
+
+    def generate(self, rng, n):
+        import xf
+        cases = []
+        tries = 0
+        while len(cases) < n and tries < 6 * n:
+            tries += 1
+            rows = rand_rows(rng)
+            sheet = to_sheet(rows, rng)
+            st, r = xf.convert_form(forms.as_dict({"survey": sheet}))
+            if st != "ok":
+                continue
+            root = xf.lparse(r.xform)
+            data = root.find(xf.H + "head").find(xf.XF + "model").find(xf.XF + "instance")[0]
+
+            def show(e):
+                tag = e.tag.split("}", 1)[1]
+                tm = "*" if any(k.endswith("}template") for k in e.attrib) else ""
+                return tag + tm + "(" + "".join(show(c) + "," for c in e if isinstance(c.tag, str) and not c.tag.endswith("}meta")) + ")"
+            cases.append({"coq": rows_coq(rows), "expected": show(data), "desc": {"rows": rows}, "class": f"repeats={min(sum(1 for x in rows if x[0] == 'b' and x[1] == 'repeat'), 3)}",
+                          "nontrivial": len(rows) > 2})
+        return cases
+
+
 def ops(tier):
-    return [RowsOp(), c02.TreeOp()]
+    return [RowsOp(), c02.TreeOp(), EndToEndOp()]
 
 
 # ---- direct oracle: an independent sheet-to-tree reader ---------------------------------------------------
